@@ -162,6 +162,7 @@ func TestPlan(t *testing.T) {
 		p.Shards = append(p.Shards, ev.ShardSpec{Name: "relative-0", Test: "^TestFindRelative$", TimeoutS: 600})
 		p.Shards = append(p.Shards, ev.ShardSpec{Name: "deep-0", Test: "^TestFindDeep$", TimeoutS: 1200})
 		p.Shards = append(p.Shards, ev.ShardSpec{Name: "names-0", Test: "^TestFindNames$", TimeoutS: 600})
+		p.Shards = append(p.Shards, ev.ShardSpec{Name: "history-0", Test: "^TestFindHistory$", TimeoutS: 600})
 	}
 	if err := ev.WritePlan(p); err != nil {
 		t.Fatal(err)
@@ -320,20 +321,20 @@ func TestFindUnprivileged(t *testing.T) {
 	s.Watchdog(10*time.Second, 4<<30)
 	defer s.Done()
 	base := filepath.Join(findBase(t), "perm")
-	modes := []int{0o755, 0o311, 0}
+	modes := []int{0o755, 0o311, 0, 0o444} // 0444: may be listed, not entered (nothing in it can be examined)
 	seen := map[string]bool{}
 	const depth = 3
 	var idx uint64
 	for sp := 0; sp < 1<<depth; sp++ {
-		for m := 0; m < 27; m++ {
+		for m := 0; m < 64; m++ {
 			for start := 0; start < depth; start++ {
 				for stop := -1; stop <= start; stop++ {
 					c := PermCase{Start: start, Stop: stop}
 					mm := m
 					for l := 0; l < depth; l++ {
 						c.Spok = append(c.Spok, sp&(1<<l) != 0)
-						c.Modes = append(c.Modes, modes[mm%3])
-						mm /= 3
+						c.Modes = append(c.Modes, modes[mm%4])
+						mm /= 4
 					}
 					idx++
 					data, _ := json.Marshal(c)
@@ -432,6 +433,55 @@ func TestFindNames(t *testing.T) {
 							s.Violation("find", f.Sig, f.Msg, f.Size, c)
 						}
 					}
+				}
+			}
+		}
+	}
+	if s.Failed() {
+		t.Fatal("violations recorded")
+	}
+}
+
+// TestFindHistory: one process searches again and again while spokfiles come and go on the chain:
+// every sequence of up to three changes (a spokfile appears at / disappears from one of three levels),
+// a search after each, for two stop directories. A search knows nothing of the one before.
+func TestFindHistory(t *testing.T) {
+	s := ev.Open(t, "C17")
+	s.Watchdog(10*time.Second, 4<<30)
+	defer s.Done()
+	base := findBase(t)
+	seen := map[string]bool{}
+	var idx uint64
+	for seq := 0; seq < 3*3*3; seq++ {
+		for _, stop := range []int{0, 1} {
+			c := FindCase{Cfg: []int{lvSpokfile, lvNothing, lvNothing}, Child: []string{"d", "t"}, Start: 2, Stop: stop}
+			if err := c.build(base); err != nil {
+				t.Fatal(err)
+			}
+			dirs := c.dirs(base)
+			k := seq
+			for step := 0; step < 4; step++ {
+				if step > 0 {
+					// toggle the spokfile of one level
+					p := filepath.Join(dirs[k%3], "spokfile")
+					k /= 3
+					if _, err := os.Lstat(p); err == nil {
+						_ = os.Remove(p)
+					} else {
+						_ = os.WriteFile(p, []byte("# x\n"), 0o644)
+					}
+				}
+				idx++
+				data, _ := json.Marshal(map[string]any{"toggles": seq, "after_step": step, "stop": stop})
+				s.Progress(idx, data)
+				s.Tick()
+				s.Eval()
+				s.Class("searches_in_one_process_while_spokfiles_come_and_go")
+				s.NonTrivial("hist" + string(data))
+				if f := execFind(s, base, c); f != nil && !seen[f.Sig] {
+					seen[f.Sig] = true
+					f.Msg = fmt.Sprintf("after %d change(s) of sequence %d (spokfiles toggled at levels, base 3 digits): %s", step, seq, f.Msg)
+					s.Violation("find", f.Sig, f.Msg, f.Size, c)
 				}
 			}
 		}
